@@ -301,6 +301,15 @@ func possKeys(p *Prog, in map[int]bool) map[int]bool {
 	}
 	switch p.Op {
 	case "pass":
+		if p.W != nil && p.W.In != nil {
+			// a keyed passthrough node hands on the map it picks
+			for _, k := range p.passKeys {
+				out[k] = true
+			}
+			// and whatever else that map carries: the strings only are known; like a node that hands its input on
+			out[-1] = true
+			return out
+		}
 		wrapped(func(in map[int]bool) map[int]bool { return in })
 	case "skip", "direct":
 		add(in)
@@ -590,6 +599,17 @@ func sortInts(a []int) {
 	}
 }
 
+// anyTyped: some node of p is declared with an interface-typed (any) output
+func anyTyped(p *Prog) bool {
+	found := false
+	p.walk(func(q *Prog) {
+		if q.Op == "node" && q.N != nil && q.N.AnyOut {
+			found = true
+		}
+	})
+	return found
+}
+
 // genSeq: nStages stages from a value of type tin (guaranteed keys) to one of type tout.
 // altStart: the first stage must have a single entry node and must not be a branch.
 // singleIn: the value entering the sequence comes from exactly one node (a branch can only
@@ -598,6 +618,10 @@ func (g *gctx) genSeq(tin bool, keys []int, tout bool, depth int, nStages int, a
 	var stages []*Prog
 	curT, curKeys, single := tin, keys, singleIn
 	afterLoop := false
+	// untyped: the value comes out of passthrough nodes whose type nothing to their left determines (a
+	// keyed one that picks its value out of a map, plain ones after it): the next node must bring the type
+	anyVal := false      // the value may come from an any-typed node (directly or through plain passthrough nodes)
+	untyped := depth > 0 // (a plain passthrough node that starts a branch alternative is typed by what follows it)
 	for i := 0; i < nStages; i++ {
 		last := i == nStages-1
 		wantT := tout
@@ -609,7 +633,64 @@ func (g *gctx) genSeq(tin bool, keys []int, tout bool, depth int, nStages int, a
 		roll := g.r.Intn(12)
 		deep := depth < g.maxDepth && g.budget > 2
 		isLoop := false
+		nowUntyped := false
+		var pickable []int // keys of the current map a keyed passthrough node can pick (not a map[string]string)
+		if curT {
+			for _, k := range curKeys {
+				if sh := g.kmap[k]; sh == nil || !sh.typed {
+					pickable = append(pickable, k)
+				}
+			}
+		}
 		switch {
+		case roll >= 9 && roll <= 10 && single && !afterLoop && g.inject == "" && (!first || depth == 0) && !untyped && (len(pickable) > 0 || g.r.Chance(1, 3)):
+			// AddPassthroughNode with a key (round 6). WithInputKey: the node picks its value out of the map it
+			// receives and hands it on; its type is inferred from its successor (a node, a branch condition, the kids
+			// of a fan-out, END, plain passthrough nodes before those). WithOutputKey: it puts what it receives
+			// under a key; its type is inferred from its predecessor. Model: SSub w SId.
+			var k int
+			// (not behind an any-typed node: the run-time check of that edge would ask the passthrough node for its
+			// converter before its type is known - AddEdge panics, nothing is compiled, no paradigm to compare)
+			if anyVal {
+				pickable = nil
+			}
+			// (nor behind a passthrough node whose own type is still unknown: the same panic in AddEdge)
+			pick := len(pickable) > 0 && g.r.Chance(3, 4)
+			if pick {
+				k = pickable[g.r.Intn(len(pickable))]
+				if last && (g.kmap[k] != nil) != tout {
+					// the picked value has the wrong type for what follows the sequence: look for another key
+					pick = false
+					for _, k2 := range pickable {
+						if (g.kmap[k2] != nil) == tout {
+							k, pick = k2, true
+						}
+					}
+				}
+			}
+			switch {
+			case pick:
+				g.budget--
+				pp := &Prog{Op: "pass", ID: g.id(), W: &Wrap{In: &k}}
+				var pkeys []int
+				if sh := g.kmap[k]; sh != nil {
+					pp.PassMap, pp.passKeys, pkeys = true, sh.keys, sh.keys
+				}
+				wantT = pp.PassMap
+				nowUntyped = true
+				st = stageOut{pp, pkeys, true, false}
+			case !last || tout:
+				g.budget--
+				k = g.key()
+				pp := &Prog{Op: "pass", ID: g.id(), PassMap: curT, W: &Wrap{Out: &k}}
+				if curT {
+					g.setShape(k, false, g.strKeys(curKeys))
+				}
+				wantT = true
+				st = stageOut{pp, []int{k}, true, false}
+			default:
+				st = g.genNode(curT, curKeys, wantT)
+			}
 		case g.loops && depth == 0 && !curT && g.budget > 1 && !afterLoop && g.r.Chance(1, 3):
 			// a cycle over a string: body (single entry, single exit), condition, back or on
 			wantT = false
@@ -631,6 +712,7 @@ func (g *gctx) genSeq(tin bool, keys []int, tout bool, depth int, nStages int, a
 			// AddPassthroughNode: the value (or stream) goes through untouched
 			g.budget--
 			wantT = curT
+			nowUntyped = untyped
 			pp := &Prog{Op: "pass", ID: g.id(), PassMap: curT}
 			pkeys := curKeys
 			if g.inject == "" && g.r.Chance(1, 2) {
@@ -659,6 +741,10 @@ func (g *gctx) genSeq(tin bool, keys []int, tout bool, depth int, nStages int, a
 		stages = append(stages, st.p)
 		curT, curKeys, single = wantT, st.keys, st.single
 		afterLoop = isLoop || st.deferred
+		untyped = nowUntyped
+		if !(st.p.Op == "pass" && (st.p.W == nil || st.p.W.In == nil && st.p.W.Out == nil)) {
+			anyVal = anyTyped(st.p)
+		}
 		if g.budget <= 0 && !last {
 			// out of budget: close the sequence with a plain node of the right type
 			if curT != tout || true {
@@ -817,6 +903,8 @@ func (g *gctx) second(c *Case) *Case {
 	if g.r.Chance(1, 3) {
 		c.Chunks2 = g.variant(c.Chunks)
 	}
+	// 1/5: the four paradigms also as simultaneous first calls on a freshly compiled object
+	c.Conc = g.r.Chance(1, 5)
 	return c
 }
 
